@@ -74,13 +74,15 @@ def breakers(draw, schema):
     by_stiff = {FIXED: [], DYNAMIC: [], UNLIMITED: []}
     for c in schema.composites():
         by_stiff[rw.layout(c.name)[2]].append(c.name)
-    pre = ''
-    if not by_stiff[DYNAMIC]:
-        pre += 'struct XDyn\n{\n    u8 a<>;\n};\n'
-        by_stiff[DYNAMIC].append('XDyn')
-    if not by_stiff[UNLIMITED]:
-        pre += 'struct XUnl\n{\n    u16 a<...>;\n};\n'
-        by_stiff[UNLIMITED].append('XUnl')
+    # helper types of every non-fixed flavour are always available: directly dynamic, dynamic through nesting,
+    # directly unlimited, unlimited through a nested tail with and without an own dynamic array
+    pre = ('struct XDyn\n{\n    u8 a<>;\n};\n'
+           'struct XDynNest\n{\n    u16 h;\n    XDyn d;\n    u8 t;\n};\n'
+           'struct XUnl\n{\n    u16 a<...>;\n};\n'
+           'struct XUnlNest\n{\n    u64 id;\n    XUnl tail;\n};\n'
+           'struct XUnlMid\n{\n    u32 ids<>;\n    XUnl tail;\n};\n')
+    by_stiff[DYNAMIC] += ['XDyn', 'XDynNest']
+    by_stiff[UNLIMITED] += ['XUnl', 'XUnlNest', 'XUnlMid']
     dyn = draw(st.sampled_from(by_stiff[DYNAMIC]))
     unl = draw(st.sampled_from(by_stiff[UNLIMITED]))
     nonfixed = draw(st.sampled_from([dyn, unl]))
